@@ -34,7 +34,7 @@ ASSUMPTIONS = [
     "called; + - * / and unary minus and subscripting between builtin types)",
 ]
 
-PRELUDE = '''class K0: pass
+PRELUDE0 = '''class K0: pass
 class KAdd:
   def __add__(self, o): return 1
   def __radd__(self, o): return "r"
@@ -55,6 +55,10 @@ class KIter:
 class KSubInt(int): pass
 '''
 
+PRELUDE = PRELUDE0 + "".join("%s = %s\n" % kv for kv in {
+    "s_int": "1", "s_str": "'s'", "s_list": "[1]", "s_none": "None",
+    "s_k0": "K0()", "s_dict": "{'a': 1}", "s_len": "len"}.items())
+
 BUILTIN_VALUES = [
     "1", "0", "-3", "1.5", "True", "2j", "'s'", "''", "b'b'", "None",
     "[]", "[1]", "['a']", "[[1]]", "(1,)", "()", "(1, 'a')", "{'a': 1}", "{}",
@@ -62,7 +66,8 @@ BUILTIN_VALUES = [
 ]
 USER_VALUES = ["K0()", "KAdd()", "KSub()", "KGet()", "KCall()", "KNeg()",
                "KIter()", "KSubInt(2)"]
-OTHER_VALUES = ["len", "abs", "int", "str", "K0", "KIter"]
+FUNC_VALUES = ["len", "abs", "'ab'.upper", "[1].append", "KIter().meth"]
+OTHER_VALUES = FUNC_VALUES + ["int", "str", "K0", "KIter"]
 VALUES = BUILTIN_VALUES + USER_VALUES + OTHER_VALUES
 
 BINOPS = ["+", "-", "*", "/", "//", "%", "**", "@", "&", "|", "^", "<<", ">>"]
@@ -101,6 +106,23 @@ def all_statements():
   return out
 
 
+SHARED = {"s_int": "1", "s_str": "'s'", "s_list": "[1]", "s_none": "None",
+          "s_k0": "K0()", "s_dict": "{'a': 1}", "s_len": "len"}
+
+
+def repeated_statements():
+  """The same mistake made twice (and three times) on one shared object."""
+  out = []
+  for var, val in SHARED.items():
+    for stmt, kind in (("%s.nonsense" % var, "attr"),
+                       ("%s.frobnicate()" % var, "meth"),
+                       ("%s()" % var, "call0"), ("-%s" % var, "un-"),
+                       ("%s[0]" % var, "subscr")):
+      for _ in range(3):
+        out.append((kind, stmt, (val, "0" if kind == "subscr" else "nonsense")))
+  return out
+
+
 def cpython_outcome(stmt, ns_template):
   ns = dict(ns_template)
   try:
@@ -126,7 +148,8 @@ def advertised(kind, operands, outcome):
   """Is this failing statement one of the mistakes pytype advertises?"""
   if outcome == "AttributeError" and kind in ("attr", "meth"):
     a = operands[0]
-    return a in BUILTIN_VALUES or a in USER_VALUES
+    # builtin functions and bound methods are instances of builtin classes too
+    return a in BUILTIN_VALUES or a in USER_VALUES or a in FUNC_VALUES
   if outcome != "TypeError":
     return False
   if kind == "call0" or kind == "call1":
@@ -209,6 +232,8 @@ def run_shard(ctx):
   for i, ch in enumerate(chunks):
     if i % ctx.nshards == ctx.shard:
       check_module(ctx, ch)
+  if ctx.shard == ctx.nshards - 1:
+    check_module(ctx, repeated_statements())
   if ctx.shard == 0:
     ctx.extra["grid_statements_total"] = len(stmts)
   ctx.extra["exhaustive"] = not ctx.quick()
